@@ -272,7 +272,16 @@ def text_of(chunks):
 COLLIDING = [(1, '1'), (1.0, '1.0'), (True, 'true'), (0, '0'), (0.0, '0.0'), (False, 'false'), (2, '2'), (2.0, '2.0'), ('1', "'1'"), (None, 'null')]
 
 
-def value_for(k, rng_tag):
+def value_for(k, rng_tag, dialect='mindsdb'):
+    v = _value_for(k, rng_tag)
+    if dialect != 'mindsdb' and isinstance(v[0], (int, float)) and not isinstance(v[0], bool) and v[0] < 0:
+        # only the mindsdb grammar folds `-5` into one constant; elsewhere the inline text is a unary minus applied to 5,
+        # a different tree of equal meaning (see DESIGN §11.3): no negative values outside the mindsdb dialect
+        return 3000 + k, str(3000 + k)
+    return v
+
+
+def _value_for(k, rng_tag):
     if rng_tag >= 100:
         # palette of values that compare equal across types (1 == 1.0 == True ...): what a cache keyed by value confuses
         return COLLIDING[(k * 3 + rng_tag) % len(COLLIDING)]
@@ -284,6 +293,14 @@ def _unique_value_for(k, rng_tag):
     client library really sends: integers (also negative), strings (also one that contains a `?`, which
     must not be taken for a placeholder again), floats, booleans, NULL."""
     m = (k * 7 + rng_tag) % 8
+    if m == 5 and rng_tag >= 50:
+        # (mindsdb dialect only) a string with a quote in it, the empty string, an integer beyond 64 bits
+        j = (k + rng_tag) % 3
+        if j == 0:
+            return "it's %d" % k, "'it''s %d'" % k
+        if j == 1:
+            return '', "''"
+        return 12345678901234567890 + k, str(12345678901234567890 + k)
     if m in (0, 5):
         return 1000 + k, str(1000 + k)
     if m == 1:
@@ -360,7 +377,10 @@ def gen_scenario(seed):
                 ch, cat = g.statement()
                 if text_of(ch).count(MARK) <= 6:
                     break
-            stmts.append({'chunks': ch, 'cat': cat, 'tag': rng.randrange(8) if rng.random() < 0.8 else 100 + rng.randrange(10)})
+            d = 'mindsdb' if rng.random() < 0.8 else 'mysql'
+            r = rng.random()
+            tag = rng.randrange(8) if r < 0.6 else (100 + rng.randrange(10) if r < 0.8 else (50 + rng.randrange(8) if d == 'mindsdb' else rng.randrange(8)))
+            stmts.append({'chunks': ch, 'cat': cat, 'tag': tag, 'd': d})
         # one planner (one catalog) per session: use the largest catalog any of its statements needs
         rank = {'one': 0, 'two': 1, 'model': 2}
         top = max((st['cat'] for st in stmts), key=lambda c: rank[c])
@@ -419,7 +439,7 @@ class Session:
         return text_of(self.cur['chunks']).count(MARK)
 
     def values(self):
-        return [value_for(k, self.cur['tag']) for k in range(self.n())]
+        return [value_for(k, self.cur['tag'], self.cur.get('d', 'mindsdb')) for k in range(self.n())]
 
     def v(self, kind, detail):
         self.viol.append({'kind': kind, 'session': self.sid, 'stmt': self.cur, 'detail': detail, 'pc': self.pc})
@@ -441,7 +461,7 @@ class Session:
             sql = text_of(self.cur['chunks']).replace(MARK, '?')
             self.steps, self.exec_err, self.gen = [], None, None
             try:
-                ast = parse_sql(sql, dialect='mindsdb')
+                ast = parse_sql(sql, dialect=self.cur.get('d', 'mindsdb'))
             except Exception as e:
                 self.state = 'failed'
                 self.obs['parse_rejected'] += 1
@@ -625,7 +645,7 @@ class Session:
         vals = self.values()
         inline = subst(text_of(self.cur['chunks']), [lit for _, lit in vals])
         try:
-            ref_plan = plan_query(parse_sql(inline, dialect='mindsdb'), **O.plan_kwargs(copy.deepcopy(CATALOGS[self.cur['cat']])))
+            ref_plan = plan_query(parse_sql(inline, dialect=self.cur.get('d', 'mindsdb')), **O.plan_kwargs(copy.deepcopy(CATALOGS[self.cur['cat']])))
             ref_steps, ref_err = ref_plan.steps, None
         except Exception as e:
             ref_steps, ref_err = [], O.exc_obs(e)
@@ -661,7 +681,7 @@ def sanity(spec):
         for st in s['stmts']:
             marked = text_of(st['chunks'])
             sql = marked.replace(MARK, '?')
-            lexer, _ = get_lexer_parser('mindsdb')
+            lexer, _ = get_lexer_parser(st.get('d', 'mindsdb'))
             try:
                 n = sum(1 for t in lexer.tokenize(sql) if t.type == 'PARAMETER')
             except Exception:
